@@ -185,6 +185,20 @@ KINDS = ['und', 'blocks', 'dir', 'disc', 'bip', 'tiny']
 # ------------------------------------------------------------------------------------------------
 # per-class parameters
 # ------------------------------------------------------------------------------------------------
+def _ok_est(name):
+    """Parameter objects are taken from the classes whose own history obligation holds on this tree (the
+    theorem's assumption for user-supplied objects)."""
+    return str(_GEN.get('verdict_ests', {}).get(name, '')).startswith('ok')
+
+
+def _embedding_choices(r):
+    out = [None]
+    for nm, params in (('GSVD', {'n_components': 2}), ('Spectral', {'n_components': 2}), ('SVD', {'n_components': 2})):
+        if _ok_est(nm):
+            out.append({'__est__': nm, 'params': params})
+    return r.choice(out)
+
+
 def _louvain_like(r):
     return dict(resolution=r.choice([0.5, 1, 1.5]), modularity=r.choice(['dugue', 'newman', 'potts']),
                 shuffle_nodes=r.random() < 0.75, random_state=r.randrange(1000), sort_clusters=r.random() < 0.8,
@@ -252,8 +266,7 @@ SPEC = {
     'DiffusionClassifier': dict(params=lambda r: dict(n_iter=r.choice([3, 10]), centering=r.random() < 0.6, scale=r.choice([1, 5])),
                                 sets={'n_iter': [2, 6], 'centering': [True, False]}, targets=['und', 'dir', 'bip', 'disc']),
     'NNClassifier': dict(params=lambda r: dict(n_neighbors=r.choice([1, 2]),
-                                               embedding_method=r.choice([None, {'__est__': 'GSVD', 'params': {'n_components': 2}},
-                                                                          {'__est__': 'Spectral', 'params': {'n_components': 2}}]),
+                                               embedding_method=_embedding_choices(r),
                                                normalize=r.random() < 0.6),
                          sets={'n_neighbors': [1, 2], 'normalize': [True, False]}, targets=['und', 'blocks', 'bip']),
     'PageRankClassifier': dict(params=lambda r: dict(damping_factor=r.choice([0.5, 0.85]), n_iter=r.choice([5, 10])),
@@ -265,7 +278,7 @@ SPEC = {
                       sets={'damping_factor': [0.4, 0.9]}, targets=['und', 'dir', 'bip', 'disc']),
     'Dirichlet': dict(params=lambda r: dict(n_iter=r.choice([2, 5])), sets={}, targets=['und', 'dir', 'bip', 'disc']),
     'NNLinker': dict(params=lambda r: dict(n_neighbors=r.choice([2, 3]), threshold=r.choice([0, 0.2]),
-                                           embedding_method=r.choice([None, {'__est__': 'GSVD', 'params': {'n_components': 2}}])),
+                                           embedding_method=_embedding_choices(r)),
                      sets={'n_neighbors': [2, 3], 'threshold': [0, 0.3]}, targets=['und', 'blocks', 'bip']),
     'GNNClassifier': dict(params=lambda r: dict(dims=[r.choice([3, 4]), 2], early_stopping=False,
                                                 optimizer=r.choice(['Adam', 'Adam', 'GD']),
@@ -367,8 +380,16 @@ def _strip_trace(st):
 # ------------------------------------------------------------------------------------------------
 # comparisons
 # ------------------------------------------------------------------------------------------------
-def _is_none(v):
-    return v is None
+def _families(attrs):
+    """`labels_row_`, `labels_col_` -> `labels_row/col_` (which of the two is stale depends on the history)."""
+    out = set()
+    for a in attrs:
+        for suf in ('_row_', '_col_'):
+            if a.endswith(suf):
+                a = a[:-len(suf)] + '_row/col_'
+                break
+        out.add(a)
+    return ','.join(sorted(out))
 
 
 def diff_states(a, b):
@@ -424,6 +445,36 @@ def _maxdiff(x, y):
     return m
 
 
+def _spectra(v, out):
+    if isinstance(v, dict):
+        for k, x in v.items():
+            if k in ('singular_values_', 'eigenvalues_') and isinstance(x, dict) and 'v' in x:
+                try:
+                    out.append([float.fromhex(t) for t in x['v']])
+                except (TypeError, ValueError):
+                    pass
+            else:
+                _spectra(x, out)
+    elif isinstance(v, list):
+        for x in v:
+            _spectra(x, out)
+
+
+def degenerate_spectrum(*results):
+    """Does a fitted state hold a repeated (or vanishing) singular value / eigenvalue?  Then the vectors ARPACK
+    returns are not determined by the matrix: they depend on its restart vectors."""
+    for r in results:
+        sp = []
+        _spectra(r.get('state'), sp)
+        for vals in sp:
+            vs = sorted(abs(x) for x in vals)
+            if any(x < 1e-7 for x in vs):
+                return True
+            if any(abs(a - b) <= 1e-7 * (1 + abs(b)) for a, b in zip(vs, vs[1:])):
+                return True
+    return False
+
+
 def classify_refit(job, refit, fresh):
     """-> (observed token, sig extras, differing attributes)"""
     d = diff_states(refit, fresh)
@@ -431,13 +482,17 @@ def classify_refit(job, refit, fresh):
         return 'equal', {}, []
     stale = [k for k in d if k not in ('<outcome>', '<value>') and fresh['state'].get(k) is None and refit['state'].get(k) is not None]
     if stale and len(stale) == len(d):
-        return 'stale:' + ','.join(stale), {'kind': 'stale', 'attrs': ','.join(stale)}, d
+        return 'stale:' + ','.join(stale), {'kind': 'stale', 'attrs': _families(stale)}, d
     extra = {'kind': 'refit-differs'}
+    if degenerate_spectrum(refit, fresh):
+        extra['degenerate_spectrum'] = True
     p = current_params(job)
     if 'shuffle_nodes' in p:
         extra['shuffle_nodes'] = bool(p['shuffle_nodes'])
     if job['cls'] == 'GNNClassifier':
-        extra['validation'] = bool(job['target'].get('kw', {}).get('validation'))
+        # a validation mask drawn by any earlier fit is kept by the object
+        extra['validation'] = any(bool(x.get('kw', {}).get('validation')) for x in
+                                  [job['target']] + [op['input'] for op in job['history'] if op['op'] == 'fit'])
     return 'differs:' + ','.join(d), extra, d
 
 
@@ -474,6 +529,8 @@ def est_cases(ctx, job, static_names):
     d2 = diff_states(again, fresh)
     obs2 = 'equal' if not d2 else 'differs:' + ','.join(d2)
     sig2 = dict(base_sig, kind='rerun-differs') if d2 else dict(base_sig, kind='rerun')
+    if d2 and degenerate_spectrum(again, fresh):
+        sig2['degenerate_spectrum'] = True
     if name in static_names:
         cases.append(Case(('rerun', key[1]), sig2, None, obs2, 'c16.spec_history %s %s' % (name, obs2), fresh['outcome'] == 'ok',
                           dict(desc, check='fresh-vs-fresh', differs=d2)))
@@ -641,7 +698,7 @@ def _est_sig(name, why):
     sig = {'obligation': 'historyOK', 'entry': name + '.fit'}
     if why.startswith('stale:'):
         sig['kind'] = 'stale'
-        sig['attrs'] = ','.join(sorted(why[6:].split(',')))
+        sig['attrs'] = _families(why[6:].split(','))
     elif why.startswith('rng:') or why.startswith('rng-of'):
         sig['kind'] = 'rng'
         sig['rng'] = why
@@ -668,6 +725,8 @@ def obligations(ctx):
     verdict_loops = dict(zip(loops, ans[4:4 + len(loops)]))
     verdict_ests = dict(zip(ests, ans[4 + len(loops):]))
     n_ob = 1 + len(loops) + len(ests)
+    _GEN['verdict_ests'] = verdict_ests
+    _GEN['verdict_loops'] = verdict_loops
     ctx.extra['prange_loops'] = verdict_loops
     ctx.extra['estimator_classes'] = verdict_ests
     ctx.extra['omp_flags_setup_py'] = omp
